@@ -49,7 +49,9 @@ ASSUMPTIONS = ['PLY matches rules in the order function-definition line, then st
 BAD_TOKENS = [('$', 'lexer'), ('~', 'lexer'), ('@', 'lexer'), ('BOOLEAN', 'lexer'), ('ENUMERATED', 'lexer'), ('NULL', 'lexer'),
               ('99999999999999999999999', 'lexer'), ("'FF'B", 'lexer'), ("'12'b", 'lexer'), ("'0G'h", 'lexer'), ('-18446744073709551616', 'lexer'), ('foo-', 'lexer'), ('Bar-', 'lexer'), ('?', 'lexer'),
               # literals that never close / close with the wrong radix letter, long enough to show a pattern that backtracks
-              ("'" + '0A' * 24, 'lexer'), ("'" + '01' * 24 + "'x", 'lexer'), ("'" + '00 1B ' * 8, 'lexer')]
+              ("'" + '0A' * 24, 'lexer'), ("'" + '01' * 24 + "'x", 'lexer'), ("'" + '00 1B ' * 8, 'lexer'),
+              # numbers of thousands of digits (beyond what int() converts without complaint), either sign
+              ('7' * 5000, 'lexer'), ('-' + '9' * 4400, 'lexer'), ('1' + '0' * 21, 'lexer')]
 
 
 def cases(ctx):
